@@ -628,7 +628,7 @@ def gen_realign_q_case(rng):
 KEY_FILTER_LOST = "usable-alignment-filtered"
 KEY_FILTER_LEAK = "filtered-alignment-contributes"
 # proposed repairs that change the modelled behaviour (see notes/C06.md): C06_FIXED=F40,F41 compares with the repaired model
-FIXED = [x for x in os.environ.get("C06_FIXED", "").split(",") if x]
+FIXED = [x for x in os.environ.get("C06_FIXED", "F126").split(",") if x]     # F126 is repaired in /repo (28714ce)
 
 
 def _maff(a):
